@@ -182,12 +182,21 @@ inductive RouterEvent where
   | adv (w : Nat) (entries : List C18.AdvEntry)
   /-- checkDeadNeighbors finds `w` dead -/
   | dead (w : Nat)
+  /-- ONE checkDeadNeighbors call finds all of `ws` dead (Remove + RemoveNextHop + Prune per neighbour,
+      one `dirty` for the whole call) -/
+  | sweep (ws : List Nat)
   /-- a prefix op list of exit router `x` is applied (processPrefixData → Apply) -/
   | papply (x : Nat) (reset : Bool) (adds rems : List Nat)
 
 /-- the tables after a router-level event, and whether the code starts `fibUpdate`:
     advertSyncOnInterest (`fibDirty`), ribUpdate / checkDeadNeighbors (`dirty`), processPrefixData (`Apply`) -/
+def Tables.deadOne (t : Tables) (w : Nat) : Tables × Bool :=
+  match pget t.nbrs w with
+  | some _ => ({ t with rib := (C18.ribDead t.rib w).1, nbrs := perase t.nbrs w }, (C18.ribDead t.rib w).2)
+  | none => (t, false)
+
 def Tables.stepDirty (t : Tables) : RouterEvent → Tables × Bool
+  | .sweep ws => ws.foldl (fun acc w => ((acc.1.deadOne w).1, acc.2 || (acc.1.deadOne w).2)) (t, false)
   | .ping w face active =>
     ({ t with nbrs := (recvPing t.nbrs w face active).1 }, (recvPing t.nbrs w face active).2)
   | .adv w entries =>
